@@ -242,7 +242,7 @@ func c02pubAlphabet(thorough bool) []string {
 	for _, topic := range []string{"xy", "p/1", "p/2", "r/1", "r/2", "w/1", "w/2"} {
 		for qos := byte(0); qos <= 2; qos++ {
 			for _, ret := range []bool{false, true} {
-				for _, pl := range []string{"", "p"} {
+				for _, pl := range []string{"", "\x00\xffp\x00"} {
 					dups := []bool{false}
 					if thorough && qos > 0 {
 						dups = []bool{false, true}
